@@ -1,8 +1,26 @@
 #include "time_manager.h"
 #include <cstdio>
 #include <cstdlib>
+#include <string>
 using namespace engine;
+static bool bad3(int t1, int t2, int inc, int mtg, int ply, int side, long* o1, long* o2) {
+    Limits a, b;
+    a.timeleft[side] = t1; a.timeinc[side] = inc; a.movestogo = mtg;
+    b.timeleft[side] = t2; b.timeinc[side] = inc; b.movestogo = mtg;
+    long r1 = TimeManager::calculateTime(a, Color(side), ply), r2 = TimeManager::calculateTime(b, Color(side), ply);
+    *o1 = r1; *o2 = r2;
+    return r1 < 0 || r2 < 0 || 10 * r1 > 7L * t1 || 10 * r2 > 7L * t2 || r1 > r2;
+}
 int main(int argc, char** argv) {
+    if (argc >= 8 && std::string(argv[1]) == "scan") {
+        // neighbourhood scan around a contract-level counterexample: same increment/movestogo/ply, many remaining times
+        int inc = atoi(argv[4]), mtg = atoi(argv[5]), ply = atoi(argv[6]), side = atoi(argv[7]); long r1, r2;
+        for (int t = 0; t <= 86400000; t = t < 2000 ? t + 1 : t + t / 97 + 1) {
+            int t2 = t + (t % 7) + 1; if (t2 > 86400000) t2 = 86400000;
+            if (bad3(t, t2, inc, mtg, ply, side, &r1, &r2)) { printf("scan: t1=%d t2=%d r1=%ld r2=%ld REPRODUCED\n", t, t2, r1, r2); return 1; }
+        }
+        printf("scan: NOT-REPRODUCED\n"); return 0;
+    }
     if (argc < 7) return 2;
     int t1 = atoi(argv[1]), t2 = atoi(argv[2]), inc = atoi(argv[3]), mtg = atoi(argv[4]), ply = atoi(argv[5]), side = atoi(argv[6]);
     Limits a, b;
